@@ -337,6 +337,41 @@ def count_phase(ctx, hist):
                                            'error_paths': len(ERROR_PATHS), 'error_paths_compared': sum(v for k, v in kinds.items() if k != 'generated')}
 
 
+def shared_phase(ctx):
+    """ONE prepared evaluator per expression, evaluated over SEVERAL scopes in shuffled order: every value must be the value the same expression has
+    when it is prepared for that scope alone (nothing may be remembered inside a prepared evaluator from one evaluation to the next; seeded change
+    C13_h: the built-in a call site resolved to was cached in the evaluator and survived a scope that binds the name to a user function)"""
+    rng = ctx.rng
+    shadow = ['abs', 'sum', 'count', 'max', 'floor', 'string length', 'not']
+    reqs = []
+    for f in shadow:
+        arg = {'sum': '[x, 1]', 'count': '[x, 1]', 'max': '[x, 1]', 'string length': '"abc"', 'not': 'x < 0'}.get(f, 'x')
+        user = {'sum': 'function(l) 700', 'count': 'function(l) 700', 'max': 'function(l) 700', 'string length': 'function(s) 700', 'not': 'function(b) 700'}.get(f, 'function(n) n + 100')
+        scopes = [['{x: -5}'], ['{x: -5, %s: %s}' % (f, user)], ['{x: 3}', '{%s: %s}' % (f, user)], ['{x: 3}']]
+        exprs = ['%s(%s)' % (f, arg), 'for f in [%s] return %s(%s)' % (user, f, arg), '{r: %s(%s)}.r' % (f, arg), 'if true then %s(%s) else 0' % (f, arg)]
+        for _ in range(ctx.pick(3, 20)):
+            seq = [[rng.randrange(len(exprs)), rng.randrange(len(scopes))] for _ in range(rng.randint(6, 16))]
+            reqs.append({'scopes': scopes, 'exprs': exprs, 'seq': seq, 'shared': True})
+    shared = ctx.run_impl('pure', reqs, shards=4)
+    alone = ctx.run_impl('pure', [dict(r, shared=False) for r in reqs], shards=4)
+    for rq, a, b in zip(reqs, shared, alone):
+        ctx.evaluations += 1
+        if 'steps' not in a or 'steps' not in b:
+            ctx.violation('history of evaluations crashed or failed: %s' % json.dumps(a)[:200], rq, impl=a)
+            continue
+        ctx.corr_checked += 1
+        ctx.nontrivial.add('shared:' + json.dumps(rq['seq']))
+        for k, ((ei, si), x, y) in enumerate(zip(rq['seq'], a['steps'], b['steps'])):
+            if x.get('after') != x.get('before'):
+                ctx.violation("evaluation altered the caller's scope: %s -> %s (expression %s)" % (x.get('before'), x.get('after'), rq['exprs'][ei]), rq, impl=a)
+                break
+            if x.get('v') != y.get('v'):
+                ctx.violation('one prepared evaluator of `%s` evaluated over several scopes: over the scope %s it returns %s as evaluation number %d of the sequence, and %s when it is '
+                              'prepared for that scope alone' % (rq['exprs'][ei], rq['scopes'][si], json.dumps(x.get('v'))[:100], k + 1, json.dumps(y.get('v'))[:100]),
+                              dict(rq, first_difference=k), impl=a['steps'][:k + 1])
+                break
+
+
 def run(ctx):
     ctx.proof_gate()
     ctx.build_harness()
@@ -365,6 +400,7 @@ def run(ctx):
         for ei, si in set(seq):
             index[(h, ei, si)] = len(terms)
             terms.append('pcase [%s] %s' % ('; '.join('[%s]' % '; '.join('(%d%%N, %s)' % (n, G.coq(x)) for n, x in c) for c in scopes[si]), G.coq(exprs[ei])))
+    shared_phase(ctx)
     impl = ctx.run_impl('pure', reqs, shards=16)
     model = ctx.run_model(HEADER, terms, shard_size=300)
     pushing = 0
